@@ -67,6 +67,37 @@ Theorem convert_root_gen_eq NB p m s e root a b :
    if in_isize q then round_norm NB p m signif q else CPanic Undocumented).
 Proof. reflexivity. Qed.
 
+(** the width fmt_round_scientific computes its padding from *)
+Theorem sci_width_gen_eq B m upper hex f s e prec :
+  radix_pads B m upper hex f s e prec =
+  match f_width f with
+  | None => (0, 0)
+  | Some minw =>
+    let '(signif, exp) := radix_rounded B hex m s e prec in
+    let str := if (s <? 0) && (signif =? 0) then [] else dtext upper (if hex then 16 else B) (Z.abs signif) in
+    let n := len str in
+    let width := sci_width_gen n (len (itoa (if hex then exp + (n - 1) * 4 else exp + (n - 1)))) (s <? 0) (f_plus f) hex prec in
+    if minw <=? width then (0, 0)
+    else if f_zero f then (minw - width, 0)
+    else match f_align f with
+         | Some ALeft => (0, minw - width)
+         | Some ARight | None => (minw - width, 0)
+         | Some ACenter => let d := minw - width in (d / 2, d - d / 2)
+         end
+  end.
+Proof.
+  unfold radix_pads. destruct (f_width f) as [minw|]; [|reflexivity].
+  destruct (radix_rounded B hex m s e prec) as [signif exp]. cbv zeta.
+  set (n := len (if (s <? 0) && (signif =? 0) then [] else dtext upper (if hex then 16 else B) (Z.abs signif))).
+  set (E := len (itoa (if hex then exp + (n - 1) * 4 else exp + (n - 1)))).
+  set (p := match prec with Some p => p | None => 0 end).
+  assert (W : n + E + 1 + (if (s <? 0) || f_plus f then 1 else 0) + (if (1 <? n) || (0 <? p) then 1 else 0) + (if hex then 2 else 0) +
+              (if n - 1 <? p then p - (n - 1) else 0) = sci_width_gen n E (s <? 0) (f_plus f) hex prec).
+  { unfold sci_width_gen. fold p. cbv zeta.
+    destruct hex, ((s <? 0) || f_plus f), ((1 <? n) || (0 <? p)), (n - 1 <? p); lia. }
+  rewrite W. reflexivity.
+Qed.
+
 (** non-vacuity *)
 Example gen4_examples :
   fmt_rounded_gen 10 MHalfAway 12345 (-3) (Some 1) = (123, -1) /\
